@@ -207,6 +207,71 @@ VARIANTS = [
             .rev()
             .enumerate()""")], {"C12": "SORTLEN:dfa::DFA::get_all_literals"}),
     V("c12-consume-before-equal-benign", [("src/bash.rs", "char_index=$((char_index + ${{#literal}}))\n                    continue 2\n                fi\n                if [[ $mode != matches", "char_index=$(( char_index + ${{#literal}} ))\n                    continue 2\n                fi\n                if [[ $mode != matches")], {"C12": None}),
+    # ---------------- C01 / C17
+    V("seed-C01-m1-wordbreak-first-occurrence", [("@patch", "seeded/C01-m1/patch.diff")], {"C01": "SK-FB:F5:suffix-after-last-wordbreak"}),
+    V("seed-C01-m3-wrong-star-flag", [("@patch", "seeded/C01-m3/patch.diff")], {"C01": "FLAGS:bash"}),
+    V("seed-C17-m1-stale-candidates", [("@patch", "seeded/C17-m1/patch.diff")], {"C17": "SK-FRESH", "C01": "SK-FRESH"}),
+    V("seed-C17-m2-per-subword-command-ids", [("@patch", "seeded/C17-m2/patch.diff")], {"C17": "FLAGS:bash:one-command-id-set"}),
+    V("seed-C17-m3-optional-stale-child", [("@patch", "seeded/C17-m3/patch.diff")], {"C17": "RP:check::specialize_nonterminals:Optional.child"}),
+    V("revert-cbd0a5d-read-splits-at-space", [("@revert", "cbd0a5d")], {"C17": "SK-CMD:V4"}),
+    V("c01-star-before-literals", [("src/bash.rs", """    if needs_top_level_star_code {
+        write!(
+            buffer,
+            r#"
+        if [[ -v "star_transitions[$state]" ]]; then
+            state=${{star_transitions[$state]}}
+            word_index=$((word_index + 1))
+            continue
+        fi
+"#
+        )?;
+    }
+
+    write!(
+        buffer,
+        r#"
+        return 1
+    done
+""", """    write!(
+        buffer,
+        r#"
+        return 1
+    done
+"""), ("src/bash.rs", """        starting_state = dfa.starting_state
+    )?;
+""", """        starting_state = dfa.starting_state
+    )?;
+
+    if needs_top_level_star_code {
+        write!(
+            buffer,
+            r#"
+        if [[ -v "star_transitions[$state]" ]]; then
+            state=${{star_transitions[$state]}}
+            word_index=$((word_index + 1))
+            continue
+        fi
+"#
+        )?;
+    }
+""")], {"C01": "SK-WALK:W2:priority"}),
+    V("c01-fallback-loop-strict-bound", [("src/bash.rs", "for (( fallback_level=0; fallback_level <= max_fallback_level; fallback_level++ )) {{", "for (( fallback_level=0; fallback_level < max_fallback_level; fallback_level++ )) {{")], {"C01": "SK-FB:F1"}),
+    V("c01-no-break-after-reply", [("src/bash.rs", """            COMPREPLY=("${{matches[@]#$superfluous_prefix}}")
+            break
+""", """            COMPREPLY=("${{matches[@]#$superfluous_prefix}}")
+""")], {"C01": "SK-FB:F4"}),
+    V("c01-unminimized-automaton", [("src/main.rs", "    let dfa = dfa.minimize();\n\n    if let Some(dot_file_path)", "    let dfa = { let _ = dfa.clone().minimize(); dfa };\n\n    if let Some(dot_file_path)")], {"C01": "PIPE:main::aot:bash:automaton"}),
+    V("c01-wrong-module-arm", [("src/main.rs", "complgen::fish::write_completion_script(&mut writer, &validated.command, &dfa)?", "complgen::bash::write_completion_script(&mut writer, &validated.command, &dfa)?")], {"C01": "ARMS:main::aot:Fish"}),
+    V("c01-walk-word-index-twice", [("src/bash.rs", """                        state=${{state_transitions[$literal_id]}}
+                        word_index=$((word_index + 1))
+                        continue 2""", """                        state=${{state_transitions[$literal_id]}}
+                        word_index=$((word_index + 1))
+                        word_index=$((word_index + 1))
+                        continue 2""")], {"C01": "SK-WALK:W3"}),
+    V("c01-rename-loop-var-benign", [("src/bash.rs", 'for item in "${{filtered_candidates[@]}}"; do\n                subword_matches+=("$matched_prefix$item")', 'for it in "${{filtered_candidates[@]}}"; do\n                subword_matches+=("$matched_prefix$it")')], {"C01": None, "C17": None, "C07": None, "C12": None}),
+    V("c17-args-swapped", [("src/bash.rs", '_{command}_cmd_$command_id "$completed_prefix" "$matched_prefix"', '_{command}_cmd_$command_id "$matched_prefix" "$completed_prefix"')], {"C17": "SK-CMD:V3:within-word complete"}),
+    V("c17-filter-with-other-prefix", [("src/bash.rs", '{MATCH_FN_NAME} "$completed_prefix" subword_candidates filtered_candidates', '{MATCH_FN_NAME} "$matched_prefix" subword_candidates filtered_candidates')], {"C17": "SK-CMD:V5"}),
+    V("c17-command-text-untrimmed-benign", [("src/bash.rs", "            // Edge case: bash syntax errors on empty function bodies", "            // Edge case: bash reports a syntax error on an empty function body")], {"C17": None}),
     # ---------------- C10
     V("c10-std-hashset-in-dfa", [("src/dfa.rs", "use hashbrown::{HashMap, HashSet};", "use hashbrown::HashMap;\nuse std::collections::HashSet;")], {"C10": "HASHORD:dfa::dfa_from_regex"}),
     V("c10-env-var", [("src/lib.rs", '    let version = env!("COMPLGEN_VERSION");', '    let version = std::env::var("COMPLGEN_VERSION").unwrap_or_default();')], {"C10": "AMBIENT:signature"}),
